@@ -163,12 +163,98 @@ Section WithIP6.
     end.
 End WithIP6.
 
-(* three-valued verdict for the correspondence check: judged whenever the answer does not depend
-   on netip.ParseAddr *)
-Definition go_registry_verdict (reg : str) : option bool :=
-  let a := go_valid_registry (fun _ => true) reg in
-  let c := go_valid_registry (fun _ => false) reg in
-  if Bool.eqb a c then Some a else None.
+(* ---------- netip.ParseAddr (go1.26.8) on the contents of a bracketed IP literal ----------
+   parseHost needs: ParseAddr succeeds and the address is not an IPv4 address.  ParseAddr looks at
+   the first of '.', ':', '%': a dot first means IPv4 (rejected inside brackets), a colon first
+   means parseIPv6, a percent first or none of them is an error. *)
+
+(* parseIPv4Fields on a whole string: four decimal octets <= 255 without leading zeros *)
+Fixpoint ipv4_go (s : str) (val : N) (dig pos : nat) (prevdot first : bool) : bool :=
+  match s with
+  | [] => Nat.eqb pos 3
+  | c :: t =>
+      if is_digit_c c then
+        if Nat.eqb dig 1 && (val =? 0) then false
+        else let v := val * 10 + (c - 48) in
+             if 255 <? v then false else ipv4_go t v (S dig) pos false false
+      else if c =? 46 then
+        if first || prevdot || match t with [] => true | _ => false end then false
+        else if Nat.eqb pos 3 then false
+        else ipv4_go t 0 0%nat (S pos) true false
+      else false
+  end.
+Definition ipv4_ok (s : str) : bool := ipv4_go s 0 0%nat 0%nat false true.
+
+Fixpoint take_hex (s : str) : nat * str :=
+  match s with
+  | c :: t => if is_hex_c c then let (n, r) := take_hex t in (S n, r) else (0%nat, s)
+  | [] => (0%nat, [])
+  end.
+
+(* after the loop: the whole string must be used; fewer than 8 groups need an ellipsis, exactly 8
+   must not have one *)
+Definition ip6_finish (left : nat) (ell : bool) (s : str) : bool :=
+  match s with
+  | [] => match left with O => negb ell | _ => ell end
+  | _ => false
+  end.
+
+(* the group loop of parseIPv6; [left] = number of 16-bit groups still free ((16-i)/2) *)
+Fixpoint ip6_loop (left : nat) (ell : bool) (s : str) : bool :=
+  match left with
+  | O => ip6_finish 0 ell s
+  | S left' =>
+      let (off, rest) := take_hex s in
+      if Nat.eqb off 0 || Nat.ltb 4 off then false
+      else match rest with
+           | [] => ip6_finish left' ell []
+           | c :: r1 =>
+               if c =? 46 then
+                 (* trailing embedded IPv4: must replace the final two groups unless there is an ellipsis *)
+                 if (negb ell && negb (Nat.eqb left 2)) || Nat.ltb left 2 then false
+                 else if ipv4_ok s then ip6_finish (left - 2) ell [] else false
+               else if c =? 58 then
+                 match r1 with
+                 | [] => false
+                 | c2 :: r2 =>
+                     if c2 =? 58 then
+                       if ell then false
+                       else match r2 with
+                            | [] => ip6_finish left' true []
+                            | _ => ip6_loop left' true r2
+                            end
+                     else ip6_loop left' ell r1
+                 end
+               else false
+           end
+  end.
+
+Definition parse_ipv6 (x : str) : bool :=
+  let s := match index_of c_pct x with Some i => firstn i x | None => x end in
+  let zone_ok := match index_of c_pct x with
+                 | Some i => match skipn (S i) x with [] => false | _ => true end
+                 | None => true
+                 end in
+  zone_ok &&
+  match s with
+  | 58 :: 58 :: r => match r with [] => true | _ => ip6_loop 8 true r end
+  | _ => ip6_loop 8 false s
+  end.
+
+Fixpoint first_special (s : str) : N :=
+  match s with
+  | [] => 0
+  | c :: t => if (c =? 46) || (c =? 58) || (c =? c_pct) then c else first_special t
+  end.
+
+(* netip.ParseAddr(x) succeeds with an address that is not IPv4 *)
+Definition go_ip6_ok (x : str) : bool := (first_special x =? 58) && parse_ipv6 x.
+
+(* the complete model of Reference.ValidateRegistry() == nil *)
+Definition go_registry (reg : str) : bool := go_valid_registry go_ip6_ok reg.
+
+(* verdict for the correspondence check: every registry is judged *)
+Definition go_registry_verdict (reg : str) : option bool := Some (go_registry reg).
 
 (* ---------- query escaping (url.Values.Encode for a single key) ---------- *)
 
